@@ -35,3 +35,24 @@ Example C16_example :
             tk "<int>" "1" "" 60 61 10; tk ")" ")" "" 70 71 0; tk "]" "]" "" 80 81 0; tk "<eof>" "" "" 90 90 0] in
   same_tokens_cib x y = true /\ (exists e r, parse_expr x = Ok (e, r)) /\ same_tokensb x y = false.
 Proof. vm_compute. repeat split; eauto. Qed.
+
+(* ---- lexer half: trivia in front of the unread input is absorbed; keyword case ---- *)
+From Verif Require Import Base.Utf8 Gen.Keywords Lex.Reference Lex.TriviaAbsorb.
+
+(* closed_trivia j: j is any sequence of White_Space characters (all 25, UTF-8 encoded) and complete comments ('#', '--', '//' up to
+   and including the line feed; '/* ... */').  At ANY point of the scan of the reference lexer (= the model of lexer.go, C14) such a j
+   in front of the unread input changes nothing in the tokens that follow *)
+Theorem C16_trivia_is_absorbed : forall j, closed_trivia j -> forall f prev apd s racc,
+  ref_loop (S f) prev apd (j ++ s) racc = ref_loop (S f) prev apd s racc.
+Proof. exact ref_loop_absorbs. Qed.
+Print Assumptions C16_trivia_is_absorbed.
+
+Theorem C16_trivia_length : forall j, closed_trivia j -> forall s,
+  trivia_len (S (length (j ++ s))) (j ++ s) = option_map (fun n => (length j + n)%nat) (trivia_len (S (length s)) s).
+Proof. exact trivia_absorb. Qed.
+Print Assumptions C16_trivia_length.
+
+Theorem C16_keyword_case : forall s s',
+  to_upper (firstn (many is_ident_part s) s) = to_upper (firstn (many is_ident_part s') s') -> r_kind (word_at s) = r_kind (word_at s').
+Proof. exact word_kind_case. Qed.
+Print Assumptions C16_keyword_case.
